@@ -467,8 +467,8 @@ def check_prog_batch(engines, batch, tag, env=None):
         plan = "".join(pl[o % len(pl)] for _, pl in batch)
         import time as _t
         t0 = _t.time()
-        rc, lines, err = run_iface(engines, text, plan, f"{tag}_{o}", env, timeout=45)
-        if _t.time() - t0 > 30:
+        rc, lines, err = run_iface(engines, text, plan, f"{tag}_{o}", env, timeout=30)
+        if _t.time() - t0 > 25:
             ck.log(f"slow harness run {tag}_{o} {engines}: {_t.time() - t0:.0f}s rc={rc} programs {[P.name for P, _ in batch]}")
         res = [l for l in lines if l[:2] in ("P ", "H ", "W ", "A ") and not l.startswith("H engines")]
         nexp = sum(nplan(pl[o % len(pl)]) for _, pl in batch)
@@ -476,12 +476,14 @@ def check_prog_batch(engines, batch, tag, env=None):
         if rc != 0 or bad_lines(lines) or len(res) != nexp:
             # isolate per program
             for P, pl in batch:
-                rc1, l1, e1 = run_iface(engines, P.text(), pl[o % len(pl)], f"{tag}_{o}_iso", env, timeout=12)
+                rc1, l1, e1 = run_iface(engines, P.text(), pl[o % len(pl)], f"{tag}_{o}_iso", env, timeout=10)
                 r1 = [l for l in l1 if l[:2] in ("P ", "H ", "W ", "A ") and not l.startswith("H engines")]
                 n1 = nplan(pl[o % len(pl)]) + pl[o % len(pl)].count("addrs\n") * (len(engines) - 1)
                 if rc1 != 0 or bad_lines(l1) or len(r1) != n1:
                     fails.append({"prog": P, "plan": pl[o % len(pl)], "engines": engines, "lines": bad_lines(l1)[:6], "rc": rc1,
                                   "err": e1.strip()[-300:], "env": env or {}})
+            if rc == -99:
+                break   # a hang: the other orders would only hang again
             continue
         nev += len([l for l in res if not l.startswith("A ")]) * len(engines)
         for l in res:
@@ -570,10 +572,32 @@ def stage_programs():
         progs.append((P, plans))
         for s, v in P.stats.items():
             stats[s] = stats.get(s, 0) + v
+    # programs on which eager generation alone aborts or hangs while linking are C01's: found once, up front
+    def prefilter(batch, tag):
+        rc, lines, err = run_iface(GEN_ONLY, "".join(P.text() for P, _ in batch), "addrs\n", tag, {"C03_TRASH": "none"}, timeout=10)
+        if rc == 0 and not bad_lines(lines):
+            return batch, []
+        keep, drop = [], []
+        for P, pl in batch:
+            rc, lines, err = run_iface(GEN_ONLY, P.text(), "addrs\n", tag + P.name, {"C03_TRASH": "none"}, timeout=6)
+            if rc == 0 and not bad_lines(lines):
+                keep.append((P, pl))
+            else:
+                drop.append({"program": P.name, "engines": GEN_ONLY, "lines": bad_lines(lines)[:2],
+                             "err": ("eager generation hangs while linking" if rc == -99 else err.strip()[-160:])})
+        return keep, drop
+    batches = [progs[b:b + per] for b in range(0, nprog, per)]
+    dropped = []
+    with ThreadPoolExecutor(max_workers=14) as ex:
+        futs = [ex.submit(prefilter, b, f"pre{i}") for i, b in enumerate(batches)]
+        batches = []
+        for f in futs:
+            keep, drop = f.result()
+            dropped += drop
+            if keep:
+                batches.append(keep)
     jobs = []
-    for b in range(0, nprog, per):
-        batch = progs[b:b + per]
-        bi = b // per
+    for bi, batch in enumerate(batches):
         jobs.append((ENG5, batch, f"b{bi}", None))
         lv = LEVELS[bi % 3] if quick else None
         for L in ([lv] if lv else LEVELS):
@@ -589,10 +613,10 @@ def stage_programs():
             fl, n = f.result()
             fails += fl
             nev += n
-    classes = {"c01": 0, "c03": 0}
+    classes = {"c01": len(dropped), "c03": 0}
     seen_sig = set()
     reported = 0
-    c01_samples = []
+    c01_samples = dropped[:3]
     for f in fails:
         cls = classify_prog_failure(f)
         classes[cls] += 1
@@ -619,7 +643,7 @@ def stage_programs():
                      what=("interfaces disagree on a well-defined multi-module program (" + ",".join(f["engines"]) + "): " +
                            str((bad_lines(lines) or f["lines"] or [f["err"][-150:]])[0])[:300]), signature=None)
     d = ck.cov.setdefault("distribution", {})
-    d["programs"] = {"programs": nprog, "harness_runs": len(jobs), "generated_constructs": stats, "failures_c01_class": classes["c01"],
+    d["programs"] = {"programs": nprog, "harness_runs": len(jobs), "generated_constructs": stats, "failures_c01_class": classes["c01"], "programs_dropped_generator_fails_while_linking": len(dropped),
                      "failures_c03": classes["c03"], "c01_class_samples": c01_samples,
                      "engine_sets": [ENG5] + LEVELS + MIXES + [["interp", "interpc", "gen2", "lazy2", "(allocator clobbers xmm8-15 too)"]]}
     ck.sample({"program_plan_head": progs[0][1][1].split("\n")[:8]})
